@@ -10,28 +10,29 @@ import (
 )
 
 // Value is one of:
-//   *Term      scalar bool / integer / float64
-//   string     (concrete Go string)
-//   *Ptr       pointer (Obj==nil: nil pointer)
-//   *StructV   struct value
-//   *ArrayV    array value
-//   *SliceV    slice (Arr==nil: nil slice)
-//   *MapV      map
-//   *IfaceV    interface value
-//   *Closure   function value (Fn==nil && B==nil: nil func)
-//   *ChanV     channel
-//   TupleV     multiple results
-//   *CtxV      modelled context.Context implementation
-//   *OpaqueV   opaque environment value (errors, formatted strings, timers …)
+//
+//	*Term      scalar bool / integer / float64
+//	string     (concrete Go string)
+//	*Ptr       pointer (Obj==nil: nil pointer)
+//	*StructV   struct value
+//	*ArrayV    array value
+//	*SliceV    slice (Arr==nil: nil slice)
+//	*MapV      map
+//	*IfaceV    interface value
+//	*Closure   function value (Fn==nil && B==nil: nil func)
+//	*ChanV     channel
+//	TupleV     multiple results
+//	*CtxV      modelled context.Context implementation
+//	*OpaqueV   opaque environment value (errors, formatted strings, timers …)
 type Value interface{}
 
 type Object struct {
-	ID     int
-	V      Value
-	Label  string
-	Thread int // allocating thread (concurrent mode), 0 = setup
-	Shared bool
-	Typ    types.Type
+	ID       int
+	V        Value
+	Label    string
+	Thread   int // allocating thread (concurrent mode), 0 = setup
+	Shared   bool
+	Typ      types.Type
 	Key      string      // stable identity of objects allocated by a thread (concurrent mode)
 	OwnerRun *ThreadPath // the thread run that allocated it
 	Foreign  bool
@@ -86,15 +87,15 @@ type ChanV struct {
 
 type CtxV struct {
 	CancelEvent bool
-	Parent    *CtxV
-	Key, Val  Value
-	HasKV     bool
-	Cancel    *Term // symbolic "cancelled" flag (nil: never cancelled)
-	Deadline  *Term // instant reported by Deadline() (nil: no deadline)
-	HasDl     *Term // whether Deadline() reports one
-	Name      string
-	DoneCh    *ChanV
-	CancelObj *Object
+	Parent      *CtxV
+	Key, Val    Value
+	HasKV       bool
+	Cancel      *Term // symbolic "cancelled" flag (nil: never cancelled)
+	Deadline    *Term // instant reported by Deadline() (nil: no deadline)
+	HasDl       *Term // whether Deadline() reports one
+	Name        string
+	DoneCh      *ChanV
+	CancelObj   *Object
 }
 
 type OpaqueV struct {
